@@ -301,7 +301,7 @@ func (r *Run) runPath(w *Worker, it workItem) (more [][]uint64) {
 	site := ""
 	switch kind {
 	case "gopanic":
-		site = m.panicSite()
+		site = m.lastSite
 		if mod, res := m.currentModel(); res == "sat" {
 			panicModel = mod
 		} else {
